@@ -94,13 +94,13 @@ def judge(name, kw, variants):
     if wc is None:
         return [("no-value:%s" % name, "%s(%s) returned no value inside its documented range" % (e["func"], kw))], "none"
     if th is not None:
-        tol = e["abs_tol"] if e["abs_tol"] else 1e-3 * abs(th)
+        tol = max(e["abs_tol"] if e["abs_tol"] else 1e-3 * abs(th), e.get("floor", 2e-6))
         kind = e["kind"]
         if kind == "tight" and abs(wc - th) > tol:
             probs.append(("not-tight:%s" % name, "%s(%s) = %.8g, documented tight rate %.8g (relative gap %.2e)" % (e["func"], kw, wc, th, abs(wc - th) / max(abs(th), 1e-12))))
-        elif kind == "upper" and wc > th * (1 + 1e-3) + 1e-9:
+        elif kind == "upper" and wc > th * (1 + 1e-3) + e.get("floor", 2e-6):
             probs.append(("exceeds-upper-bound:%s" % name, "%s(%s) = %.8g exceeds the documented upper bound %.8g" % (e["func"], kw, wc, th)))
-        elif kind == "lower" and th > wc * (1 + 1e-3) + 1e-9:
+        elif kind == "lower" and th > wc * (1 + 1e-3) + e.get("floor", 2e-6):
             probs.append(("below-lower-bound:%s" % name, "%s(%s) = %.8g is below the documented lower bound %.8g" % (e["func"], kw, wc, th)))
     for v in variants:
         try:
@@ -120,7 +120,7 @@ def judge(name, kw, variants):
 def cases(tier):
     out = []
     for name, e in T.ENTRIES.items():
-        for i, kw in enumerate(e["grid"]):
+        for i, kw in enumerate(T.grid(name, tier)):
             if tier == "quick":
                 variants = VARIANTS[1:] if i == 0 else ([VARIANTS[1 + (i % 6)]] if i % 2 == 0 else [])
             else:
